@@ -33,6 +33,7 @@ type ccStats struct {
 	ActBursts   int            `json:"action_bursts"`
 	ActAccepted int            `json:"actions_accepted_in_bursts"`
 	SMBursts    int            `json:"seat_manager_bursts"`
+	ByLeaves    int            `json:"bystander_departures_during_action_bursts"`
 	Anomalies   int            `json:"anomalies"`
 	Crashes     int            `json:"child_crashes"`
 	Histories   int            `json:"histories"`
@@ -536,6 +537,20 @@ func actionBurst(r *rand.Rand, st *ccStats, hid int) string {
 	st.Histories++
 	seats := r.Perm(9)
 	total := int64(0)
+	// bystanders: seats taken before anybody else's and never sat in — they stand *earlier* in the player list than every
+	// participant, and get up in the middle of a burst (a departure re-packs the list under whoever is acting)
+	bystanders := []int{}
+	for i := 0; i < r.Intn(3) && n+i < 9; i++ {
+		chips := int64(100 + r.Intn(400))
+		if rig.te.PlayerReserve(pokertable.JoinPlayer{PlayerID: pid(50 + i), RedeemChips: chips, Seat: seats[n+i]}) == nil {
+			total += chips
+			bystanders = append(bystanders, 50+i)
+		}
+		time.Sleep(200 * time.Microsecond)
+	}
+	if r.Intn(2) == 0 {
+		rig.listenerDwell = time.Millisecond // the action listener takes a moment
+	}
 	for i := 0; i < n; i++ {
 		chips := int64(100 + r.Intn(900))
 		total += chips
@@ -616,6 +631,29 @@ func actionBurst(r *rand.Rand, st *ccStats, hid int) string {
 			}
 			// every participant submits every kind, twice, at once; the backend dwells on each call
 			h.be.Dwell = time.Duration(50+r.Intn(250)) * time.Microsecond
+			// what the statistics say before the burst
+			actsBefore := map[string]int{}
+			for _, p := range t.State.PlayerStates {
+				actsBefore[p.PlayerID] = p.GameStatistics.ActionTimes
+			}
+			if len(bystanders) > 0 && r.Intn(2) == 0 {
+				who := bystanders[0]
+				bystanders = bystanders[1:]
+				wg.Add(1)
+				go func() {
+					defer wg.Done()
+					time.Sleep(time.Duration(r.Intn(600)) * time.Microsecond)
+					for _, p := range rig.live().State.PlayerStates {
+						if p.PlayerID == pid(who) {
+							total -= p.Bankroll
+						}
+					}
+					if rig.te.PlayersLeave([]string{pid(who)}) != nil {
+						total = -1 // cannot happen: a seated bystander leaves
+					}
+					st.ByLeaves++
+				}()
+			}
 			for gi := range gs.Players {
 				for _, k := range kinds {
 					for rep := 0; rep < 2; rep++ {
@@ -642,6 +680,24 @@ func actionBurst(r *rand.Rand, st *ccStats, hid int) string {
 			evs := append([]pokertable.TablePlayerGameAction{}, rig.actions[nEv:]...)
 			rig.mu.Unlock()
 			accepted += len(evs)
+			// every accepted wager action is booked on the player who made it, and on nobody else (while the hand still runs:
+			// the statistics are cleared when it ends)
+			if now := rig.live(); now.State.GameState != nil && now.State.GameCount == 1 && now.State.Status == pokertable.TableStateStatus_TableGamePlaying {
+				made := map[string]int{}
+				for _, e := range evs {
+					switch e.Action {
+					case "fold", "check", "call", "allin", "bet", "raise":
+						made[e.PlayerID]++
+					}
+				}
+				for _, p := range now.State.PlayerStates {
+					before, known := actsBefore[p.PlayerID]
+					if known && p.GameStatistics.ActionTimes-before != made[p.PlayerID] {
+						line("cc anomaly C16.action-booked-on-a-player-who-did-not-make-it player=%s booked=%d made=%d", p.PlayerID, p.GameStatistics.ActionTimes-before, made[p.PlayerID])
+						st.Anomalies++
+					}
+				}
+			}
 			// one action per turn: no two applied calls were made against the same hand state
 			seenIn := map[int64]bool{}
 			for _, c := range okCalls {
@@ -879,6 +935,7 @@ func runConc(args []string) {
 					st.ActAccepted += sub.ActAccepted
 					st.SMBursts += sub.SMBursts
 					st.Anomalies += sub.Anomalies
+					st.ByLeaves += sub.ByLeaves
 					st.Histories += sub.Histories
 					for k, v := range sub.ErrKinds {
 						st.ErrKinds[k] += v
